@@ -656,6 +656,9 @@ def classify_gauss2d(case):
     return labs
 
 
+SANITIZE = True        # thorough tier: reduced pass against an ASan build of the extensions
+SANITIZE_SCALE = 0.03
+
 SUBCHECKS = [
     Subcheck("rule", rule_cases, check_rule, classify_rule, quick=4000, thorough=60000,
              exhaustive=rule_exhaustive, exhaustive_tiers=("quick", "thorough")),
